@@ -274,6 +274,13 @@ func genC24(seed uint64, tier string) any {
 			sc.Resume = false
 		}
 	}
+	if r.Chance(1, 5) {
+		// client certificates: requested, required, verified if given, required and verified
+		sc.Server.ClientAuth = 1 + r.Intn(4)
+		if sc.Server.ClientAuth == 2 || sc.Server.ClientAuth == 4 || r.Bool() {
+			sc.Client.ClientCert = []string{"rsa", "p256"}[r.Intn(2)]
+		}
+	}
 	return sc
 }
 
